@@ -205,6 +205,9 @@ pub fn run(seed: u64, n: usize, extra: &[String]) -> String {
                     let ts = if rng.chance(1, 2) { Some("2026-01-01T00:00:00Z".to_string()) } else { None };
                     msgs.push(Message::ToolUse { name: "Edit".into(), input: json!({"file_path": rng.pick(&texts).to_string(), "base_commit_sha": format!("{:040x}", rng.next() as u128),
                         "nested": {"base_commit_sha": rng.pick(&texts).to_string(), "schema_version": "authorship/9.9.9"}, "prompts": {}, "list": [{"base_commit_sha": "x"}]}), timestamp: ts });
+                    // tool calls whose recorded input is not an object: null (arguments that did not parse), empty, scalar, array
+                    let odd = match rng.below(7) { 0 => json!(null), 1 => json!({}), 2 => json!([]), 3 => json!("just text"), 4 => json!(0), 5 => json!(false), _ => json!([null, {"a": null}]) };
+                    msgs.push(Message::ToolUse { name: rng.pick(&["Bash", "", "Edit"]).to_string(), input: odd, timestamp: if rng.chance(1, 2) { Some(String::new()) } else { None } });
                     msgs.push(Message::Thinking { text: rng.pick(&texts).to_string(), timestamp: None });
                     msgs.push(Message::Plan { text: rng.pick(&texts).to_string(), timestamp: Some("t".into()) });
                 }
